@@ -18,6 +18,12 @@ func cfgK1() *store.VerifCfg {
 	return &store.VerifCfg{Name: "b1-h3-f512-s2", NumBucket: 1, TreeHeight: 3, DataFileMax: 512, SplitCap: 2, BufIOCap: 4096,
 		BodyMax: 64 << 10, BodyInC: 64, MaxReq: 3, Hash: hashAB}
 }
+
+// cfgK1s: 4 records per data file but hint splits of 2 items, so a split rotates (and is dumped) inside a chunk
+func cfgK1s() *store.VerifCfg {
+	return &store.VerifCfg{Name: "b1-h3-f1024-s2-3keys", NumBucket: 1, TreeHeight: 3, DataFileMax: 1024, SplitCap: 2, BufIOCap: 4096,
+		BodyMax: 64 << 10, BodyInC: 64, MaxReq: 3, Hash: hashAB}
+}
 func cfgK16() *store.VerifCfg {
 	return &store.VerifCfg{Name: "b16-h2-vhash-f768-s1024", NumBucket: 16, Served: []int{0xa}, TreeHeight: 2, CheckVHash: true,
 		DataFileMax: 768, SplitCap: 1024, BufIOCap: 4096, BodyMax: 64 << 10, BodyInC: 64, MaxReq: 3, Hash: hashAB}
